@@ -692,6 +692,9 @@ def rule_grammar(facts, only=None, name="GRAMMAR", floor_key=None):
             own = q.split("::")[-1]
             sh2 = {k: v for k, v in shapes.items() if v[0] != own}     # a builder is not folded into itself
             ok = sorted(fold_builders(x, sh2) for x in got) == sorted(fold_builders(x, sh2) for x in want)
+            if not ok:
+                import nf as _nf
+                ok = _nf.equal_up_to_renaming([fold_builders(x, sh2) for x in got], [fold_builders(x, sh2) for x in want])
         r.ob(ok)
         if len(r.samples) < 4 and ("fn<" in " ".join(got)):
             r.samples.append({q: got})
